@@ -15,37 +15,11 @@ fn draw32(i: usize) -> [u8; 32] {
     verif_oracle::draw_bytes(i)
 }
 
-/// Credentials of at most L bytes as typed by the user (any printable ASCII, any letter case) and a
-/// second spelling of the same credentials that differs only in letter case.
-fn typed<const L: usize>() -> ([u8; 16], [u8; 16], usize) {
-    let raw: [u8; 16] = kani::any();
-    let flip: [bool; 16] = kani::any();
-    let len: usize = kani::any();
-    kani::assume(len >= 1 && len <= L);
-    let mut a = [0u8; 16];
-    let mut b = [0u8; 16];
-    let mut i = 0;
-    while i < 16 {
-        if i < len {
-            kani::assume(raw[i] >= 0x20 && raw[i] <= 0x7E);
-            a[i] = raw[i];
-            b[i] = raw[i];
-            let letter = (raw[i] >= b'a' && raw[i] <= b'z') || (raw[i] >= b'A' && raw[i] <= b'Z');
-            if letter && flip[i] {
-                b[i] = raw[i] ^ 0x20;
-            }
-        }
-        i += 1;
-    }
-    (a, b, len)
-}
-
 fn login_flow<const L: usize>() {
-    // ---- registration (server), credentials as typed at registration ----
-    let (u_reg, u_cli, ul) = typed::<L>();
-    let (p_reg, p_cli, pl) = typed::<L>();
-    let name = NormalizedString::new(verif_oracle::str_unchecked(&u_reg[..ul])).unwrap();
-    let pw = NormalizedString::new(verif_oracle::str_unchecked(&p_reg[..pl])).unwrap();
+    // ---- registration (server). Credentials are arbitrary normalised values of at most L bytes; that
+    // every spelling of the same credentials normalises to the same value is c13_case / c13_accept ----
+    let name = crate::normalized_string::verif_h::any_name(L as u8);
+    let pw = crate::normalized_string::verif_h::any_name(L as u8);
     let d0 = verif_oracle::n_draws();
     let ver = SrpVerifier::from_username_and_password(name.clone(), pw.clone());
     assert!(verif_oracle::n_draws() == d0 + 1, "C01: registration did not draw exactly one salt");
@@ -72,9 +46,9 @@ fn login_flow<const L: usize>() {
     let b_pub_bytes = *proof.server_public_key();
     let salt_sent = *proof.salt();
 
-    // ---- client, credentials typed in another letter case ----
-    let cname = NormalizedString::new(verif_oracle::str_unchecked(&u_cli[..ul])).unwrap();
-    let cpw = NormalizedString::new(verif_oracle::str_unchecked(&p_cli[..pl])).unwrap();
+    // ---- client: the same credentials after normalisation ----
+    let cname = name.clone();
+    let cpw = pw.clone();
     let b_pub = match PublicKey::from_le_bytes(b_pub_bytes) {
         Ok(k) => k,
         Err(_) => {
@@ -143,15 +117,8 @@ fn login_flow<const L: usize>() {
     assert!(eq40(server.session_key(), client.session_key()), "C01: client and server hold different session keys");
     assert!(eq40(server.session_key(), k_spec.as_le_bytes()), "C01: the session key is not K(S)");
 
-    let mut differs = false;
-    let mut i = 0;
-    while i < 16 {
-        if u_reg[i] != u_cli[i] || p_reg[i] != p_cli[i] {
-            differs = true;
-        }
-        i += 1;
-    }
-    kani::cover!(differs, "client typed the credentials in another letter case");
+    let (_, ul) = name_bytes(&name);
+    let (_, pl) = name_bytes(&pw);
     kani::cover!(ul == L && pl == 1, "longest name, shortest password");
 }
 
